@@ -62,10 +62,10 @@ void harness(void) {
   VASSERT(S != NULL, "socket from descriptor");
   _Bool blocking = ND_BOOL();
   int targ = ND_INT();
-  p_socket_set_blocking(S, blocking);
+  p_socket_set_blocking(S, nd_pbool(blocking));
   p_socket_set_timeout(S, targ);
   const int T = targ < 0 ? 0 : targ;
-  VASSERT(p_socket_get_timeout(S) == T && p_socket_get_blocking(S) == blocking, "getters reflect the mode calls");
+  VASSERT(p_socket_get_timeout(S) == T && (p_socket_get_blocking(S) != 0) == blocking, "getters reflect the mode calls");
   VASSUME(T <= 1000000);
 
   unsigned char buf[VS_CAP];
